@@ -56,6 +56,8 @@ type Stats struct {
 	StepCapped  int64
 	Diverged    []string
 	Deadlines   int64
+	// DeadlineAt is the choice prefix of the first execution that hit the watchdog.
+	DeadlineAt []int
 	// Nondeterministic is set when replaying the default schedule twice gave two
 	// different executions (an uncaptured source of nondeterminism: harness defect).
 	Nondeterministic bool
@@ -123,6 +125,9 @@ func (x *Explorer) explore(prefix []int, depth int, owned bool) {
 		// the same way, so the exploration of this scenario stops here and the
 		// caller reports a harness error (never a violation)
 		x.Stats.Deadlines++
+		if x.Stats.DeadlineAt == nil {
+			x.Stats.DeadlineAt = append([]int{}, prefix...)
+		}
 		x.Stats.Capped = true
 		return
 	}
